@@ -1134,7 +1134,47 @@ func (p *Printer) render(t *Term) string {
 		for _, v := range t.Bound {
 			fmt.Fprintf(&sb, "(%s %s)", smtName(v.Name), v.Sort)
 		}
-		sb.WriteString(") " + p.ref(t.Args[0]) + ")")
+		// subterms of the body that mention the bound variable cannot be named at top level;
+		// the shared ones are bound by nested lets inside the quantifier (no exponential text)
+		body := t.Args[0]
+		var order []*Term
+		seen := map[int]bool{}
+		var walk func(x *Term)
+		walk = func(x *Term) {
+			if !x.hasBV || seen[x.id] {
+				return
+			}
+			seen[x.id] = true
+			if _, named := p.names[x.id]; named {
+				return
+			}
+			if x.Op == "forall" || x.Op == "exists" {
+				return // names its own shared subterms
+			}
+			for _, a := range x.Args {
+				walk(a)
+			}
+			if p.refs[x.id] > 1 && x.Op != "bvar" && x != body {
+				order = append(order, x)
+			}
+		}
+		walk(body)
+		nlet := 0
+		sb.WriteString(") ")
+		for _, x := range order {
+			s := p.render(x)
+			if len(s) < 40 {
+				continue
+			}
+			n := fmt.Sprintf("l%d", x.id)
+			sb.WriteString("(let ((" + n + " " + s + ")) ")
+			p.names[x.id] = n
+			nlet++
+		}
+		sb.WriteString(p.ref(body) + strings.Repeat(")", nlet) + ")")
+		for _, x := range order {
+			delete(p.names, x.id) // out of scope
+		}
 	case strings.HasPrefix(t.Op, "uf:"):
 		p.usedUF[t.Name] = true
 		if len(t.Args) == 0 {
